@@ -61,6 +61,7 @@ class Run:
         self.rule = ""
         self.exhaustive = None
         self.known_printed = []
+        self.truncated = None    # (reported, written): a driver reported more violations than it wrote records (VERIF_VCAP)
         self.unreproduced = []   # violations of replayed histories that did not show again on a second, isolated replay
 
     # ---------------------------------------------------------------- TLC
@@ -241,6 +242,10 @@ class Run:
         for kid, (k, n) in sorted(known_hits.items()):
             print("KNOWN-FINDING: property=%s %s [%s; %d case(s) this run]" % (self.pid, k["what"], kid, n))
         rc = 0
+        if not fresh and self.truncated:
+            # every record that was written is a known finding, but there were more violations than records: what hid behind the cap?
+            raise Inconclusive("a driver reported %d violations but wrote %d records (cap); all written ones are known findings: "
+                               "raise VERIF_VCAP for this check" % self.truncated)
         if not fresh and self.unreproduced:
             os.makedirs(os.path.join(VERIF, "replays", self.pid), exist_ok=True)
             path = os.path.join(VERIF, "replays", self.pid, "unreproduced.json")
